@@ -6,7 +6,9 @@
 (* Events (harness/nodeimport), one scenario after another:                         *)
 (*   Scenario id n parent ckind seq built ...  a new world; the notebook starts empty*)
 (*   Fresh run ok root gets   ResetInstance + SetState(genesis) on a fresh node      *)
-(*   Import run i x ok root err gets   ImportBlock(block x); root = 0 when rejected  *)
+(*   Import run i x ok root err panic gets   ImportBlock(block x); root = 0 when      *)
+(*          rejected; panic = the call died with a Go runtime panic (recovered by     *)
+(*          the driver as internal/fuzz/server.go does): an answer like any other     *)
 (*   gets = <<[b, found, kv], ...>>: GetState(header hash of block b; 0 = genesis)   *)
 (*          called right after the SetState / ImportBlock of the event               *)
 (* Roots and key-value sets arrive as small integers, equal integers meaning equal   *)
@@ -55,7 +57,7 @@ TFresh    == /\ Is("Fresh") /\ e.ok
              /\ acc' = <<>>
 TImport   == /\ Is("Import")
              /\ (e.ok <=> e.root # 0)
-             /\ LET key == <<acc, e.x>> ans == <<e.ok, e.root>>
+             /\ LET key == <<acc, e.x>> ans == <<e.ok, e.root, e.panic>>
                     a2 == IF e.ok THEN Append(acc, e.x) ELSE acc
                     o1 == Note(key, ans)
                 IN Agrees(key, ans) /\ GetsAgree(o1, a2) /\ obs' = GetsNote(o1, a2) /\ acc' = a2
